@@ -270,7 +270,11 @@ func (o *OAuth2) End(w http.ResponseWriter, r *http.Request) error {
 				r = r.WithContext(context.WithValue(r.Context(), authboss.CTXKeyValues, RMTrue{}))
 			}
 		case FormValueOAuth2Redir:
-			redirect = v
+			// The value came from the query string of the start request:
+			// only follow it if it cannot lead off this site.
+			if isLocalRedirect(v) {
+				redirect = v
+			}
 		default:
 			query.Set(k, v)
 		}
@@ -293,6 +297,28 @@ func (o *OAuth2) End(w http.ResponseWriter, r *http.Request) error {
 		Success:      o.Localizef(r.Context(), authboss.TxtOAuth2LoginOK, provider),
 	}
 	return o.Authboss.Config.Core.Redirector.Redirect(w, r, ro)
+}
+
+// isLocalRedirect reports whether a client supplied redirect target stays on
+// this site however leniently a browser resolves it: no control characters or
+// surrounding whitespace (browsers strip them), no backslashes (treated like
+// slashes), no "//host" and nothing that starts with a scheme.
+func isLocalRedirect(redir string) bool {
+	if len(redir) == 0 || strings.TrimSpace(redir) != redir {
+		return false
+	}
+	for i := 0; i < len(redir); i++ {
+		if c := redir[i]; c < 0x20 || c == 0x7f || c == '\\' {
+			return false
+		}
+	}
+	if strings.HasPrefix(redir, "//") {
+		return false
+	}
+	if i := strings.IndexAny(redir, ":/?#"); i >= 0 && redir[i] == ':' {
+		return false
+	}
+	return true
 }
 
 // RMTrue is a dummy struct implementing authboss.RememberValuer
